@@ -120,15 +120,22 @@ func readBad(p string) ([]Bad, error) {
 
 // FirstBad returns, per run, the reasons TLC recorded at the first rejected line of that run
 // (later rejections of the same run may be consequences of the first).
-func FirstBad(st *ValStats) map[string][]string {
+func FirstBad(st *ValStats, mine ...func(string) bool) map[string][]string {
+	keep := func(w string) bool { return len(mine) == 0 || mine[0] == nil || mine[0](w) }
 	first := map[string]int{}
 	for _, b := range st.Bad {
+		if !keep(b.Why) {
+			continue
+		}
 		if l, ok := first[b.Run]; !ok || b.L < l {
 			first[b.Run] = b.L
 		}
 	}
 	out := map[string][]string{}
 	for _, b := range st.Bad {
+		if !keep(b.Why) {
+			continue
+		}
 		if b.L == first[b.Run] {
 			dup := false
 			for _, w := range out[b.Run] {
